@@ -126,9 +126,13 @@ class Gen:
         if k == "evalorder":
             form = r.randrange(0, 5)
             self.count("evalorder:form%d" % form)
+            if form == 4 and getattr(self, "_ld", 0) > 0:
+                self.count("closure-in-loop:immediately-called literal")
             z = self.namedvar() if form == 4 else self.anyvar()
             return self.add_act([4, self.dstvar(), self.anyvar(), self.anyvar(), z, form])
         if k == "closure":
+            if getattr(self, "_ld", 0) > 0:
+                self.count("closure-in-loop:captures per-iteration variable")
             return self.add_act([5, self.anyvar(), r.randrange(1, 9), 0, 0, 0])
         if k == "runfs":
             return self.add_act([6, 0, 0, 0, 0, 0])
@@ -162,6 +166,7 @@ class Gen:
 
     def stmt(self, ctx, may_branch):
         r = self.rng
+        self._ld = ctx["ld"]
         ctx["budget"][0] -= 1
         d = ctx["depth"]
         w = {"act": 7}
@@ -782,8 +787,7 @@ THEOREMS = ["direct_correct", "direct_unique", "direct_correct_ctx", "interp_sou
             "desugar_once", "desugar_incdec_once", "spec_trace", "desugar_trace", "naive_rewrite_wrong",
             "names_distinct_plain", "names_fresh_plain", "renderInj_ascii", "names_distinct_plain_ascii", "render_clash",
             "encodeIdent_ascii_id", "tuple_assign_counterexample", "tuple_assign_partial"]
-ENV_THEOREMS = ["reserved_covers_es", "reserved_model_exact", "reserved_misses_console", "reserved_covers_used_counterexample",
-                "reserved_covers_used_partial"]
+ENV_THEOREMS = ["reserved_covers_es", "reserved_model_exact", "reserved_covers_used", "keywords_alone_miss_console"]
 
 JOB_TIMEOUT = 300
 
@@ -818,14 +822,15 @@ func h(a, b, c int) int { return a*100 + b*10 + c }
 
 '''
 
+# (id, signature of the recorded finding or None for a REPAIRED defect kept as a regression probe, program)
 WITNESSES = [
-    ("console-local", "C01 ident=console shadows-unqualified-global println",
+    ("console-local", None,
      HDR + 'func main() { console := 5; println(console) }\n'),
-    ("console-pkg", "C01 ident=console shadows-unqualified-global println",
+    ("console-pkg", None,
      HDR + 'var console = 5\n\nfunc main() { println(console) }\n'),
-    ("Number-local", "C01 ident=Number shadows-unqualified-global uintptr->int64 conversion",
+    ("Number-local", None,
      HDR + 'func main() { Number := 7; u := uintptr(3); println(Number, int(int64(u))) }\n'),
-    ("Uint8Array-local", "C01 ident=Uint8Array shadows-unqualified-global unsafe.Pointer(new(T))",
+    ("Uint8Array-local", None,
      HDR.replace("package main\n", 'package main\n\nimport "unsafe"\n') +
      'func main() { defer func() { if recover() != nil { println("rec") } }(); Uint8Array := 7; p := unsafe.Pointer(new(int)); _ = p; println(Uint8Array) }\n'),
     ("tuple-order", "C01 evalorder tuple-assign lhs-operands-evaluated-after-rhs",
@@ -848,7 +853,7 @@ CORPUS = {
     "goto": 'func main() { i := 0\nL:\n if i < 3 { println(i); i++; goto L }\n println("done")\n for j := 0; j < 3; j++ { if j == 1 { goto M }; println("j", j) }\nM:\n println("m") }',
     "ft": 'func main() { for i := 0; i < 4; i++ { switch i { case 0: println("z"); fallthrough; case 1: println("o"); case 2: println("t"); if i == 2 { break }; println("x"); default: println("d") } } }',
     "lcont": 'func main() {\nO:\n for i := 0; i < 3; i++ { for j := 0; j < 3; j++ { if j == 1 { continue O }; if i == 2 { break O }; println(i, j) } } }',
-    "unary": 'func main() { a := 3; b := + +a; println(b, - +a, +-a, ^ ^a, ^-a, -^a) }',
+    "unary": 'func main() { a := 3; b := + +a; println(b, - +a, +-a, ^ ^a, ^-a, -^a, - -a, - - -a, a); var c int8 = -128; println(-c, - -c) }',
     "postcontinue": 'func main() { n := 0; for i := 0; i < 5; i, n = i+1, n+10 { if i%2 == 0 { continue }; switch { case i == 3: continue; default: println("d", i, n) }; println(i, n) }; println(n) }',
     "swbreakloop": 'func main() { for i := 0; i < 4; i++ { switch { case i == 1: break; case i == 2: if i > 0 { break }; println("no"); default: println("d", i) }; println("after", i) } }',
     "lbreaksw": 'func main() {\nS:\n switch { default: for i := 0; i < 3; i++ { if i == 1 { break S }; println(i) }; println("no") }\n println("end") }',
@@ -1053,7 +1058,8 @@ def check_tmps(chk, g, pid, fi, tmps, toks):
 
 GO_IDENTS = ["x", "y", "i", "err", "ok", "n", "_", "_x", "x1", "x_1", "X", "T", "é", "É", "变量", "ñ", "À", "xÀ", "日本", "a世", "Ω", "ǅ",
              "_tmp", "_tuple", "_r", "_i", "_ref", "_key", "_entry", "_v", "_q", "_index", "_ptr", "_struct", "_slice", "_val",
-             "obj", "param", "$r", "x$ptr", "main.f", "T.m", "f$1", "go$val"] + EXOTIC_LOCALS[:70]
+             "obj", "param", "$r", "x$ptr", "main.f", "T.m", "f$1", "go$val", "console", "Number", "Uint8Array", "DataView",
+             "console", "Number"] + EXOTIC_LOCALS[:70]
 
 
 def names_history(rng, nops):
@@ -1112,10 +1118,10 @@ def names_oracle(lines, meta, answers, reserved):
     return bad
 
 
-def names_tie(chk, tier):
+def names_tie(chk, tier, kw):
+    """kw: the names seeded into the root context (reserved)"""
     rng = chk.rng
     n_hist = 12 if tier == "quick" else 60
-    kw = C.run_gvh_lines(["ops"], ["nm kw"], name="gvh_c01")[0].split(",")
     for h in range(n_hist):
         lines, meta = names_history(rng, rng.choice([30, 80, 200]) if h else 400)
         impl = C.run_gvh_lines(["ops"], lines, name="gvh_c01")
@@ -1147,12 +1153,29 @@ JS_GLOBALS = ["console", "Math", "Array", "Int8Array", "Uint8Array", "Uint8Clamp
               "decodeURIComponent", "escape", "unescape", "eval", "arguments", "undefined", "this", "null", "true", "false"]
 
 
+_NODE_GLOBALS = None
+
+
+def js_globals():
+    """the static list plus every own property name of Node's global object (so the enumeration does not depend on my memory
+    of the standard library)"""
+    global _NODE_GLOBALS
+    if _NODE_GLOBALS is None:
+        r = subprocess.run(["node", "-p", "JSON.stringify(Object.getOwnPropertyNames(globalThis))"], capture_output=True,
+                           text=True, timeout=600)
+        if r.returncode != 0:
+            raise RuntimeError("node could not list its globals: " + r.stderr[-500:])
+        _NODE_GLOBALS = [n for n in json.loads(r.stdout) if re.fullmatch(r"[A-Za-z_][A-Za-z0-9_]*", n)]
+    return set(JS_GLOBALS) | set(_NODE_GLOBALS) | {"document", "navigator", "location", "alert", "XMLHttpRequest", "localStorage"}
+
+
 def scan_unqualified():
     """JS globals / special identifiers that occur unqualified (not after `.`, `$` or a format verb) in the JavaScript
     code templates of the compiler: string literals of every non-test .go file under /repo/compiler (sub-packages included;
     prelude, natives, vendor and gopherjspkg are not code generators) that contain statement / expression punctuation, plus
     single-word literals passed directly to formatExpr / Printf / PrintCond / newIdent. Regenerated on every run."""
     used = {}
+    globs = js_globals()
     cdir = os.path.join(C.REPO, "compiler")
     files = []
     for root, dirs, fs in os.walk(cdir):
@@ -1173,12 +1196,22 @@ def scan_unqualified():
                 # only JavaScript templates: they contain a statement / expression delimiter
                 continue
             for w in re.finditer(r"(?<![\w$.%])([A-Za-z_][A-Za-z0-9_]*)(?![\w$])", s):
-                if w.group(1) in JS_GLOBALS:
+                if w.group(1) in globs:
                     used.setdefault(w.group(1), set()).add(f)
     return used
 
 
-def write_generated(kw, used):
+def root_seeded(kw, used):
+    """names with allVars[name] > 0 in a fresh root function context (what newRootCtx seeds), probed through the hook for
+    every candidate: the keyword list, every unqualified global, the ES reserved words, the model's list, the name pools"""
+    cands = sorted(set(kw) | set(used) | set(ES_RESERVED) | set(MODEL_GLOBALS) | set(EXOTIC_LOCALS) | set(EXOTIC_GLOBALS) |
+                   {n for n in GO_IDENTS})
+    lines = ["nm new 0"] + ["nm cnt 0 " + n.encode().hex() for n in cands]
+    ans = C.run_gvh_lines(["ops"], lines, name="gvh_c01")
+    return [n for n, a in zip(cands, ans[1:]) if a.isdigit() and int(a) > 0]
+
+
+def write_generated(kw, used, seeded):
     gdir = os.path.join(C.LEAN, "GV", "Generated")
     os.makedirs(gdir, exist_ok=True)
     path = os.path.join(gdir, "Keywords.lean")
@@ -1189,9 +1222,11 @@ def write_generated(kw, used):
            "    templates in compiler/*.go); do not edit. -/\n"
            "namespace GV.Generated\n"
            "def reservedKeywords : List String := %s\n"
-           "def reservedKeywordBytes : List (List Nat) := %s\n"
+           "def rootSeeded : List String := %s\n"
+           "def rootSeededBytes : List (List Nat) := %s\n"
            "def usedUnqualified : List String := %s\n"
-           "end GV.Generated\n") % (strs(kw), "[" + ", ".join(str(list(k.encode())) for k in kw) + "]", strs(sorted(used)))
+           "end GV.Generated\n") % (strs(kw), strs(seeded), "[" + ", ".join(str(list(k.encode())) for k in seeded) + "]",
+                                    strs(sorted(used)))
     old = open(path).read() if os.path.exists(path) else None
     if old != src:
         with open(path, "w") as f:
@@ -1204,7 +1239,7 @@ ES_RESERVED = ["await", "break", "case", "catch", "class", "const", "continue", 
                "null", "return", "super", "switch", "this", "throw", "true", "try", "typeof", "var", "void", "while", "with",
                "yield", "let", "static", "implements", "interface", "package", "private", "protected", "public",
                "arguments", "eval"]
-KNOWN_MISSING = ["console", "Number", "Uint8Array", "DataView"]
+MODEL_GLOBALS = ["console", "Number", "Uint8Array", "DataView"]      # GV.NamesPlain.reservedGlobals
 GO_KEYWORDS = {"break", "case", "chan", "const", "continue", "default", "defer", "else", "fallthrough", "for", "func", "go", "goto",
                "if", "import", "interface", "map", "package", "range", "return", "select", "struct", "switch", "type", "var",
                "true", "false", "nil", "int", "string", "len", "println", "append", "new", "iota"}
@@ -1246,8 +1281,10 @@ def run(tier, seed):
         # ---- regenerated facts + proofs -----------------------------------------------------------------------
         kw = C.run_gvh_lines(["ops"], ["nm kw"], name="gvh_c01")[0].split(",")
         used = scan_unqualified()
-        write_generated(kw, used)
-        chk.extra["extracted_facts"] = {"reservedKeywords": kw, "usedUnqualified": {k: sorted(v) for k, v in sorted(used.items())}}
+        seeded = root_seeded(kw, used)
+        write_generated(kw, used, seeded)
+        chk.extra["extracted_facts"] = {"reservedKeywords": kw, "rootSeeded": seeded,
+                                        "usedUnqualified": {k: sorted(v) for k, v in sorted(used.items())}}
         chk.proof = C.check_proofs("C01", THEOREMS, tier)
         if ENV_THEOREMS:
             envp = C.check_proofs("C01", ENV_THEOREMS, tier, module="GV.Props.C01Env")
@@ -1266,8 +1303,8 @@ def run(tier, seed):
                 for t in envp.obligations:
                     chk.proof.failed.append((t, "GV.Props.C01Env does not build against the regenerated facts (reserved keywords / "
                                                 "unqualified globals changed): missing ES words %s, unqualified not reserved %s" % (
-                                                    [w for w in ES_RESERVED if w not in kw],
-                                                    [w for w in sorted(used) if w not in kw and w not in KNOWN_MISSING])))
+                                                    [w for w in ES_RESERVED if w not in seeded],
+                                                    [w for w in sorted(used) if w not in seeded])))
                 chk.proof.build_log = envp.build_log
         env_broken = bool(chk.proof.failed)
 
@@ -1275,8 +1312,9 @@ def run(tier, seed):
         jobs = witness_jobs()
         # search part of the X-tie: an identifier equal to every ES reserved word missing from the extracted list and to every
         # unqualified global that is not reserved (the known ones have their own witnesses)
-        targeted = [w for w in ES_RESERVED if w not in kw and w not in GO_KEYWORDS]
-        targeted += [w for w in sorted(used) if w not in kw and w not in KNOWN_MISSING and w not in GO_KEYWORDS]
+        witnessed = {"console", "Number", "Uint8Array"}
+        targeted = [w for w in ES_RESERVED if w not in seeded and w not in GO_KEYWORDS]
+        targeted += [w for w in sorted(used) if w not in seeded and w not in witnessed and w not in GO_KEYWORDS]
         for w in targeted:
             jobs.append({"id": "t_" + w, "files": {"main.go": ident_probe(w)}, "variants": ["plain"], "native": True,
                          "timeout": JOB_TIMEOUT, "keep_js": True})
@@ -1301,11 +1339,11 @@ def run(tier, seed):
                                  signature=sigs.get(r["id"]))
 
         # ---- c: names ------------------------------------------------------------------------------------------
-        names_tie(chk, tier)
+        names_tie(chk, tier, seeded)
 
         # ---- a + b: generated programs ------------------------------------------------------------------------
-        nprog = 36 if tier == "quick" else 240
-        batch = 36 if tier == "quick" else 60
+        nprog = 36 if tier == "quick" else 1000
+        batch = 36 if tier == "quick" else 100
         done = 0
         while done < nprog:
             n = min(batch, nprog - done)
